@@ -405,3 +405,20 @@ Theorem C12_reveal_refuses_zero_per_plate_refuted :
     plate_observed s' pid = true.
 Proof. exact C12PerPlate.reveal_zero_guard_is_joint. Qed.
 Print Assumptions C12_reveal_refuses_zero_per_plate_refuted.
+
+(* ---- "the number of unobserved plates REPORTED for the screen" ----
+   instance of C12_model_is_source_cli_extract_screen_metadata with the library record filled by the TRANSLATED
+   Screen.plates / ScreenBase.is_observed / n_plates / n_unique_samples / n_unique_treatments / size (C12SourceCliCounters.em_src_lib;
+   their links to Model/Views.v are C14's): on a constructed screen the JSON object's counters ARE Model/Reveal.v's n_plates,
+   n_unobserved_plates, n_observed_plates - the counters C12_unobserved_drop and C12_counters_add_up speak about. *)
+From Batchie Require Model.Views Proofs.C12SourceCliCounters.
+Theorem C12_model_is_source_cli_extract_screen_metadata_counters :
+  forall (load : Cli.path -> result Views.pyscreen) (a : Cli.em_args) (s : Views.pyscreen),
+  load (Cli.em_screen a) = Ok s -> constructed (snd s) ->
+  SrcCli.src_cli_extract_screen_metadata Views.pyscreen Views.view (C12SourceCliCounters.em_src_lib load) a
+  = Ok [(Cli.em_output a,
+         Cli.mk_meta (Z.of_nat (n_unique_samples_rows (snd s))) (Z.of_nat (length (Views.screen_unique_treatments (snd s))))
+                     (Z.of_nat (length (s_tids (snd s)))) (Z.of_nat (n_plates (snd s)))
+                     (Z.of_nat (n_unobserved_plates (snd s))) (Z.of_nat (n_observed_plates (snd s))))].
+Proof. exact C12SourceCliCounters.src_cli_extract_screen_metadata_counters. Qed.
+Print Assumptions C12_model_is_source_cli_extract_screen_metadata_counters.
